@@ -23,6 +23,13 @@ import (
 func TestC02(t *testing.T) {
 	rec := runCodec(t, "C02", false, true)
 	opsSuite(t, rec)
+	if rec.Race() {
+		// marshal operations from several goroutines at once, on a struct type that is used for
+		// the first time (see C18, suite concurrent-first-use): the header length equals the
+		// serialised size and the image reads back
+		g := genCtx(t)
+		rec.Suite("concurrent-first-marshal", rec.N(100, 10000), func(c *ev.Case) { freshTypeRound(c, rec, g) })
+	}
 	rec.Close()
 }
 
